@@ -504,6 +504,7 @@ func checkErrorDiscipline(p *Prog, r *Result, rule string) {
 			}
 		}
 	}
+	checkIteratorErrors(p, r)
 	// premise of the Create exception: Schema.initialize returns only the nil constant
 	if f := p.FuncByName("Schema.initialize"); f != nil {
 		allNil := true
@@ -654,5 +655,76 @@ func checkUUIDAssign(p *Prog, r *Result, rule string) {
 	}
 	if found == 0 {
 		r.Report(rule, "-", "Initialize(random uuid)", Violated, "no write-path site assigns a random UUID to a new object", "", nil, true)
+	}
+}
+
+// checkIteratorErrors: the error of the iterator's next() ends the draining loops; it must reach more than comparisons
+// (be returned, stored, or handed to another function), otherwise a read error is indistinguishable from the end of the
+// iteration and the caller gets a partial result without error.
+func checkIteratorErrors(p *Prog, r *Result) {
+	const rule = "C01.R7"
+	r.Rule(rule, "iterator errors are not swallowed: in every function that drains the object iterator, the error returned by next() flows (possibly through a loop-carried variable) into a return value, a store or a call argument, not only into comparisons: a loop that merely stops on a non-nil error turns an unreadable object into a silently shorter result", 2)
+	itn := p.A.Iterator
+	if itn == nil {
+		r.Report(rule, "-", "iterator type", Undecided, "iterator type not found", "", nil, false)
+		return
+	}
+	nx := p.FuncByName(itn.Obj().Name() + ".next")
+	if nx == nil {
+		r.Report(rule, "-", "iterator next", Undecided, "next() not found", "", nil, false)
+		return
+	}
+	for _, fn := range p.Funcs {
+		var errs []ssa.Value
+		for _, b := range fn.Blocks {
+			for _, in := range b.Instrs {
+				call, ok := in.(*ssa.Call)
+				if !ok || call.Call.StaticCallee() != nx || call.Referrers() == nil {
+					continue
+				}
+				for _, rf := range *call.Referrers() {
+					if ex, ok := rf.(*ssa.Extract); ok && isErrorType(ex.Type()) {
+						errs = append(errs, ex)
+					}
+				}
+			}
+		}
+		if len(errs) == 0 {
+			continue
+		}
+		// forward closure through phis and interface conversions; cells (named results / captured) count as stores
+		seen := map[ssa.Value]bool{}
+		propagates := false
+		var walk func(v ssa.Value)
+		walk = func(v ssa.Value) {
+			if seen[v] || propagates || v.Referrers() == nil {
+				return
+			}
+			seen[v] = true
+			for _, rf := range *v.Referrers() {
+				switch u := rf.(type) {
+				case *ssa.Phi:
+					walk(u)
+				case *ssa.ChangeInterface:
+					walk(u)
+				case *ssa.MakeInterface:
+					walk(u)
+				case *ssa.Return, *ssa.Store, *ssa.Panic, *ssa.MapUpdate, *ssa.Send:
+					propagates = true
+				case ssa.CallInstruction:
+					if classifyExternal(u.Common().StaticCallee()) != xErrorsIs {
+						propagates = true
+					}
+				}
+			}
+		}
+		for _, e := range errs {
+			walk(e)
+		}
+		if propagates {
+			r.Report(rule, FuncName(fn), "error of next() reaches a return, a store or a call", Discharged, "", p.Pos(fn.Pos()), nil, true)
+		} else {
+			r.Report(rule, FuncName(fn), "error of next() reaches a return, a store or a call", Violated, "the error returned by the iterator is only compared (to nil / to the end-of-iteration sentinel): the loop stops on an unreadable object and the function goes on as if the iteration had ended, returning a partial result and no error", p.Pos(errs[0].Pos()), nil, true)
+		}
 	}
 }
